@@ -40,6 +40,7 @@ Targets(ts) == {p \in NonConst : \A i \in DOMAIN ts : p \in DOMAIN Conv[ts[i]]}
 Cost(ts, p) == SumCost(ts, [i \in DOMAIN ts |-> p], 1)
 Minimal(ts) == {p \in Targets(ts) : \A q \in Targets(ts) : ~LexLess(Cost(ts, q), Cost(ts, p))}
 
+CaseConst(condsConst, valuesConst) == condsConst /\ valuesConst
 IsTy(o) == o[1] = "type"
 Rejected(o) == o[1] = "DataTypeError"
 
@@ -55,6 +56,9 @@ Judge(c, r) ==
         o  == CHOOSE q \in O : TRUE
     IN  IF \E q \in O \cup ON \cup OC : ~(IsTy(q) \/ Rejected(q)) THEN "internal-error"
         ELSE IF \E q \in OU : ~(IsTy(q) \/ q[1] = "TypeError") THEN "internal-error"
+        \* a case expression is a constant iff its conditions AND its values are (r.caseconst: the constness observed for
+        \* <<column condition / constant value, constant condition / constant value, constant condition / column value>>)
+        ELSE IF Len(ts) = 1 /\ r.caseconst # <<>> /\ r.caseconst # <<CaseConst(FALSE, TRUE), CaseConst(TRUE, TRUE), CaseConst(TRUE, FALSE)>> THEN "case-constness"
         ELSE IF Cardinality(O) # 1 \/ Cardinality(OC) > 1 \/ Cardinality(OU) > 1 THEN "order-dependent"
         ELSE IF ON # O THEN "null-not-neutral"
         ELSE IF OC # {} /\ OC # O THEN "case-differs"
